@@ -76,6 +76,9 @@ def payload(rng, n):
     return bytes(rng.choice(b"ab\r\n-x") for _ in range(n)).replace(b"\r\n--" + BND, b"xxxxxxxxx")
 
 
+CONFIGURED = {"mem": None}  # max_form_memory_size the harness configured for the parse in progress
+
+
 class Hook:
     """E2 monitors: decoder buffer bound (contract) + in-frame container bound."""
 
@@ -84,11 +87,16 @@ class Hook:
         self.limit = None
         M, FP = W["M"], W["FP"]
 
+        def bound(dec):
+            # the limit the application configured on the parser / request (when the harness set one), not whatever
+            # the parser chose to hand down to its decoder
+            return CONFIGURED["mem"] if CONFIGURED["mem"] is not None else dec.max_form_memory_size
+
         def cond(dec, old, result, data):
-            return dec.max_form_memory_size is None or len(dec.buffer) <= dec.max_form_memory_size
+            return bound(dec) is None or len(dec.buffer) <= bound(dec)
 
         contracts.post(M.MultipartDecoder, "receive_data", "decoder-buffer-bound", None, cond,
-                       lambda dec, old, result, data: f"len(buffer)={len(dec.buffer)} > max_form_memory_size={dec.max_form_memory_size}")
+                       lambda dec, old, result, data: f"len(buffer)={len(dec.buffer)} > configured max_form_memory_size={bound(dec)} (decoder's own: {dec.max_form_memory_size})")
 
         def on_line(loc, line):
             lim = self.limit
@@ -111,6 +119,7 @@ def parse_direct(W, body, mem, parts_lim, bufsize, k):
 
     p = FP.MultiPartParser(max_form_memory_size=mem, max_form_parts=parts_lim, buffer_size=bufsize)
     st = Short(body, k)
+    CONFIGURED["mem"] = mem
     try:
         form, files = p.parse(st, BND, len(body))
         return ("ok", [(a, v) for a, v in form.items(multi=True)], [(a, f.read()) for a, f in files.items(multi=True)]), st
@@ -118,6 +127,8 @@ def parse_direct(W, body, mem, parts_lim, bufsize, k):
         return ("413",), st
     except Exception as e:
         return ("EXC", type(e).__name__, str(e)[:80]), st
+    finally:
+        CONFIGURED["mem"] = None
 
 
 def check_parser(W, rec, rng, hook):
@@ -200,6 +211,9 @@ def check_parser(W, rec, rng, hook):
         if toomany:
             rec.violation("C10/E1-surplus-parts-accepted", f"{nparts} parts, max_form_parts {pl}; {case}", case, monitor="E1")
             return
+        if special == "huge-header" and mem is not None and big_header > mem + 64:
+            rec.violation("C10/E1-undelimited-input-accepted", f"a header block of more than {big_header} bytes was buffered and accepted, mem {mem}; {case}", case, monitor="E1")
+            return
         if special == "no-delimiter" and mem is not None and len(body) > mem + 64:
             rec.violation("C10/E1-undelimited-input-accepted", f"{len(body)} undelimited bytes, mem {mem}; {case}", case, monitor="E1")
             return
@@ -271,6 +285,7 @@ def check_request(W, rec, rng):
     if near or (kind == "urlencoded" and not with_cl):
         rec.nontrivial(hash((body[:64], len(body), memv, mcl, pl, with_cl, terminated, k)) & 0xFFFFFFFFFFFFFFFF)
     r = R(env)
+    CONFIGURED["mem"] = memv
     try:
         form = [(a, v) for a, v in r.form.items(multi=True)]
         files = [(a, f.read()) for a, f in r.files.items(multi=True)]
@@ -281,6 +296,8 @@ def check_request(W, rec, rng):
         out = ("disc",)
     except Exception as e:
         out = ("EXC", type(e).__name__, str(e)[:80])
+    finally:
+        CONFIGURED["mem"] = None
     for name, d in contracts.LOG.take():
         rec.violation("C10/E2-decoder-buffer-over-limit", f"{d}; {case}", case, monitor=f"contract:{name}")
         return
